@@ -82,7 +82,7 @@ func (h *svcHarness) goOnline() bool {
 		h.conn, h.seen = c, 1
 		// the service waits for the CONNACK
 		if h.fail("no-connack") {
-			for i := 0; i < 6 && c.alive(); i++ { // let the connect timeout elapse
+			for i := 0; i < 16 && c.alive(); i++ { // let the connect timeout elapse
 				vFireTimers()
 				vQuiesce()
 			}
@@ -265,7 +265,34 @@ func VerifC17() {
 	}
 	vAssert(vLive() == 0, "no goroutine of the service is left after Stop")
 	vAssert(s.Start(cfg), "a stopped service can be started again")
+	// the restarted service works like a fresh one: a publish survives a connection loss
+	h.F += 1
+	h.conn = h.current()
+	c17Later = nil
+	pf := s.Publish("z", []byte{42}, 1, false)
+	if h.goOnline() {
+		c := h.conn
+		vQuiesce()
+		if c.alive() && c.sentCount() >= 2 {
+			pp, ok := c.sentAt(c.sentCount() - 1).(*packet.Publish)
+			vAssert(ok && pp.Message.Topic == "z", "a command issued after the restart is carried out")
+			if ok && h.fail("drop-after-restart") {
+				vCover("c17-restart-drop")
+				c.Close()
+				if h.goOnline() {
+					h.conn.in <- &packet.Puback{ID: pp.ID}
+					vQuiesce()
+					vAssert(futureState(pf) == "done", "after a restart futures still survive a reconnect and complete through the resumed session")
+				}
+			} else if ok {
+				c.in <- &packet.Puback{ID: pp.ID}
+				vQuiesce()
+				vAssert(futureState(pf) == "done", "a publish after the restart completes with its acknowledgement")
+			}
+		}
+	}
 	vAssert(s.Stop(true), "and stopped again")
+	vAssert(futureState(pf) != "pending", "Stop(true) leaves no future pending after a restart either")
 	vCover("c17-end")
 }
 
